@@ -49,6 +49,15 @@ CHECKS = {
                      'GenOrder.tla checks the order laws and the add/sub inverse law on the model for every pair / triple of the domain and writes every pair with the model answer; the code must answer the same on all of them (so the laws transfer to the code on the domain), '
                      'and antisymmetry / reflexivity are also observed directly on the code.',
                 note='trusted: TLC; domain: vectors of length <= 2 (quick) / 3 (thorough) over {-inf,-2,-1,-0,+0,1,2,+inf}, 7 goal shapes; NaN excluded (statement: finite).'),
+    'C16': dict(category='model_checking', design_ref='DESIGN.md section 6 C16', technique='TLC enumerates matrix sets and queries with the model answer (Routing.tla), replayed into the real transport cost providers, compared by JudgeRouting.tla',
+                text='Routing.tla defines when a matrix set is consistent, which matrix a (profile, time) query selects, linear interpolation between timestamps (exact rationals), duration scaling and unscaled distance. '
+                     'GenRouting.tla enumerates consistent and inconsistent sets with pairwise distinct entries and every query; the harness builds the real provider (create_matrix_transport_cost, the pragmatic named-profile path with errorCodes, the coordinate approximation) and answers every query.',
+                note='trusted: TLC; integer timestamps and entries, sizes 1-3; accuracy of the haversine approximation is not claimed (symmetry and zero diagonal only).'),
+    'C17': dict(category='model_checking', design_ref='DESIGN.md section 6 C17', technique='step model of DBSCAN model-checked against its contract (Dbscan.tla, TLC), terminal states and TLC-enumerated LKH / k-medoids inputs replayed into the public functions, outputs judged by the contracts of Algo.tla',
+                text='Algo.tla states the contracts (permutation, same start, closed cost not above the input; disjoint clusters grown from a core point with density-reachable members, no core point unclustered; partition with nearest own medoid, per tier among siblings). '
+                     'Dbscan.tla transcribes create_clusters step by step; TLC checks contract and termination for every neighbourhood relation, order and minPts on 3 (quick) / 4 (thorough) points and prints every terminal state, which the real function must reproduce. '
+                     'GenAlgo.tla enumerates every symmetric cost matrix over small alphabets for 1-5 nodes plus a seeded larger stratum (6-9 nodes, ties, zero-cost duplicates, collinear), every point multiset on a small line / grid plus seeded larger sets; every call runs under a deadline (termination).',
+                note='trusted: TLC; integer costs (float arithmetic exact); k <= number of points; hierarchy: nearest-medoid judged among clusters that split the same parent.'),
     'C12': dict(category='model_checking', design_ref='DESIGN.md section 6 C12', technique='TLC enumerates single-breach mutants of valid recorded solutions (Checker.tla over VrpModel), replayed into the bundled checker',
                 text='Positive: every solver-made solution that the specification (VrpModel!Valid) accepts must be accepted by CheckerContext::check. Negative: for a sample of those records TLC enumerates every (breach class, site) mutation '
                      '(misreported load, unknown / duplicated / dropped / split job, assigned and unassigned, arrival / distance / statistic mismatch, capacity below load, distance / duration / tour-size limit, broken relation, misplaced break), keeps those whose mutated pair the specification finds invalid, '
